@@ -59,6 +59,14 @@ CHECKS = {
    note=COMMON_NOTE + "cbor2.loads is modelled on definite-length items without floats / exotic simple values / semantic tags (inputs outside are checked "
         "directly on the implementation only). Runtime monitors are not theorems.",
    technique="Lean 4 proof (mutual induction over a generic interpreter, decide for generated flags) + type-confusion correspondence sweep"),
+ "C08": dict(
+   text="Kernel-checked (decide +kernel) over the tables re-extracted from the live classes on every run: C08_registry_present (every registered (space, name, code) is what the "
+        "code defines), C08_nodup (no repeated name or code in any vocabulary-bearing class), C08_tags (107/18/96), C08_hash_lengths; generic theorems for every key space: "
+        "C08_decode_encode, C08_encode_name (one-to-one under nodup), C08_foreign_rejected, C08_foreign_code_rejected. Tie: the finite (key space x name) plane is enumerated "
+        "completely through the public from_obj/to_cbor/from_cbor/to_obj API in both directions, every name in every other space, real classes vs model vs registry.",
+   design="4 C08",
+   note=COMMON_NOTE + "Registry.lean (the spec side) is written from memory of the drafts/RFCs offline; vendor-specific entries are pinned to the pinned commit.",
+   technique="Lean 4 proof (decide +kernel over generated tables, list lemmas) + exhaustive model/implementation/registry correspondence"),
 }
 
 NA_REASON = "check not yet built in this revision (work in progress; DESIGN.md section 4 describes the planned model and theorems)"
